@@ -291,11 +291,18 @@ theorem freed_or_rekeyed_step (s : State) (m : Move) (h : Inv10 s) (ha : assumed
       exact cleared ((RChg.of_alloc_eq (s' := withFaults s fault pfault) rfl).trans (deliver_chgA _ _ i))
     | resync order fault pfault =>
       exact cleared ((RChg.of_alloc_eq (s' := withFaults s fault pfault) rfl).trans (resync_chgA _ _ order))
-    | syncPodIPs fault => simp [assumed10] at ha2
+    | syncPodIPs fault =>
+      have c0 : Core (withFaults s fault 0) := h.core.of_eq rfl rfl rfl rfl rfl rfl
+      have := (syncPods_core _ (withFaults s fault 0) (lister_vals s h.base) c0).2.2 ip r hr
+      have e : Tbl.get (step Facts.good s (.syncPodIPs fault)).1.alloc ip = some r := this
+      rw [e] at hr'; cases hr'; exact absurd rfl hk
     | apiRelease ip' k fault pfault =>
       exact cleared ((RChg.of_alloc_eq (s' := withFaults s fault pfault) rfl).trans (apiRelease_chgA _ _ ip' k))
     | reload pools fault => simp [assumed10] at ha2
-    | restart => simp [assumed10] at ha2
+    | restart =>
+      have ho : s.orphans = [] := by simpa [assumed10] using ha2
+      have c0 : Core (withFaults s 0 0) := h.core.of_eq rfl rfl rfl rfl rfl rfl
+      exact absurd ((restart_same (withFaults s 0 0) c0.coh ho).1 ip) same
     | resyncSnap => exact absurd rfl same
     | resyncRec ip' fault pfault =>
       apply cleared
